@@ -3,7 +3,8 @@
 (*                                                                                            *)
 (* AllTerms enumerates every type term up to depth 2 over a small alphabet (every node class   *)
 (* that carries a type: NamedType, ClassType, LateType, AnythingType, NothingType, Literal in   *)
-(* its int / str / raw-bool / Constant-bool forms, TypeParameter, GenericType, TupleType,       *)
+(* its int / str / raw-bool / Constant-bool / enum-member / class-valued forms, TypeParameter,  *)
+(* GenericType, TupleType,                                                                      *)
 (* CallableType, UnionType, IntersectionType; unions with repeated, reordered and nested        *)
 (* members).  The state space is the set of ORDERED PAIRS of such terms; on every pair TLC      *)
 (* checks that SpecEq is reflexive and symmetric and coincides with equality of the canonical   *)
@@ -20,7 +21,9 @@ VARIABLE pair
 
 LeafN == {T0("named", n) : n \in NarrowNames}
 LeafX == {AnyT, NothingT, T0("classtype", "int"), T0("late", "int"), Lit("int:1"), Lit("int:0"),
-          Lit("pybool:True"), Lit("bool:True"), Lit("str:a"), TVar("T")}
+          Lit("pybool:True"), Lit("bool:True"), Lit("str:a"), TVar("T"),
+          \* node-valued literals: enum members (a Constant holding a class reference), a class
+          Lit("enum:E.X"), Lit("enum:E.Y"), Lit("type:A")}
 LeafW == LeafN \cup LeafX
 LeafU == LeafN \cup {Lit(v) : v \in UnionLits}
 
@@ -57,7 +60,11 @@ AllTerms == LeafW \cup Depth1 \cup (IF Deep THEN Depth2 ELSE {})
 
 (* one export per run: the term list in a fixed order shared with the driver *)
 TermList == SetToSeq(AllTerms)
-ExportTerms == PrintT(<<"CASE", ToJson([terms |-> TermList])>>)
+(* ... and the same list in the ClassType dialect: the driver builds every term a second and a   *)
+(* third time from it - without class pointers, and with the pointers filled in by the real     *)
+(* visitors - for the pointer-state dimension of the law (TraceC12: cross rows, life rows)       *)
+CtTermList == [k \in DOMAIN TermList |-> CtDialect(TermList[k])]
+ExportTerms == PrintT(<<"CASE", ToJson([terms |-> TermList, ct |-> CtTermList])>>)
 
 EqInit == pair \in AllTerms \X AllTerms
 EqNext == UNCHANGED pair
@@ -68,6 +75,13 @@ B == pair[2]
 Reflexive   == (A = B) => SpecEq(A, B)
 Symmetric   == SpecEq(A, B) <=> SpecEq(B, A)
 CanonAgrees == SpecEq(A, B) <=> (CanonForm(A) = CanonForm(B))
+(* the ClassType dialect: idempotent, coarser than the law on the terms as written (NamedType    *)
+(* and ClassType of one name are different nodes, their ClassType-dialect forms are the same),   *)
+(* and the law on dialect forms has a canonical form as well                                     *)
+DialectIdem    == CtDialect(CtDialect(A)) = CtDialect(A)
+DialectCoarser == SpecEq(A, B) => SpecEq(CtDialect(A), CtDialect(B))
+DialectCanon   == SpecEq(CtDialect(A), CtDialect(B)) <=> (CanonForm(CtDialect(A)) = CanonForm(CtDialect(B)))
+DialectPtr     == HasPtr(A) <=> HasPtr(CtDialect(A))
 (* depth bound really holds for the enumeration *)
 DepthOK     == Depth(A) <= 2 + (IF Tag(A) = "union" THEN 1 ELSE 0)
 =============================================================================
